@@ -97,7 +97,7 @@ var c02Families = []c02Family{
 			for i := 0; i < k; i++ {
 				out = append(out, be16(2+2*k)...)
 			}
-			out = append(out, be16(1, 0, 1, 8)...)   // lookup: type 1, one subtable
+			out = append(out, be16(1, 0, 1, 8)...)  // lookup: type 1, one subtable
 			out = append(out, be16(2, 6+2*n, n)...) // single substitution format 2
 			for i := 0; i < n; i++ {
 				out = append(out, be16(i+2)...)
